@@ -3,8 +3,91 @@ from ..runner import EngineSpec, PropSpec
 from .. import gen_dispatch, mon_exec
 from . import register
 
+def race_search(tier, seed, tag_hist):
+    """what the goroutines of block execution share: the harness built with Go's race detector runs blocks whose IBTPs are spread over
+    the proof-verification groups (accepted, rejected and absent proofs mixed, so that some groups record rejections while others still
+    run) and blocks of transactions whose signatures are verified one goroutine each.  A race the detector reports ON A GO MAP
+    (runtime.mapaccess* / mapassign* / mapdelete* / mapiter*) is an alarm: at run time the Go runtime answers a concurrent map read and
+    write with `fatal error: concurrent map read and map write`, which no recover() contains — the node dies in the middle of a block.
+    Other reports (plain words shared without a lock) are counted into the evidence, not alarmed: they do not crash a node."""
+    import os, random, re, shutil, subprocess, tempfile
+    from .. import core
+    from ..core import History
+    from ..runner import Hit
+    rc, out = core.build_harness_race()
+    if rc != 0:
+        yield Hit("C08/race-harness-does-not-build", "the harness does not build with -race: " + out[-400:])
+        return
+    r = random.Random(seed ^ 0xC08)
+    pairs = [("ca1", "c1:s1", "c2:s1"), ("ca1", "c1:s2", "c2:s3"), ("ca2", "c2:s1", "c1:s1"), ("ca2", "c2:s3", "c4:s1"),
+             ("ca4", "c4:s1", "c1:s1"), ("ca1", "c1:s1", "c4:s1"), ("ca2", "c2:s1", "c4:s1"), ("ca3", "c3:s1", "c2:s1"), ("ca4", "c4:s1", "c2:s3")]
+    hs = []
+    n = 12 if tier != "thorough" else 120
+    for _ in range(n):
+        ops = [f"world audit={r.choice([0, 1])} price=1"]
+        nxt = {}
+        for _b in range(r.randint(3, 7)):
+            txs = []
+            for (a, f, t) in r.sample(pairs, r.randint(4, len(pairs))):
+                i = nxt.get((f, t), 1)
+                pk = r.choice(["ok", "ok", "bad", "bad", "none"])
+                if pk == "ok":
+                    nxt[(f, t)] = i + 1
+                tx = f"ibtp {a} {f} {t} {i} req {r.choice([0, 0, 3])} - {pk}"
+                if r.random() < 0.3:
+                    tx = f"sig:{r.choice(['ok', 'ok', 'bad', 'other'])} " + tx
+                txs.append(tx)
+            if r.random() < 0.3:
+                txs.append(f"xfer u0 u1 {r.randint(1, 9)}")
+            ops.append("block " + " | ".join(txs))
+        hs.append(History(ops, tags={"race:parallel-proof-blocks"}))
+    # and some of the property's ordinary malformed traffic
+    hs += gen_dispatch.gen_c08(random.Random(seed ^ 0xC081), 12 if tier != "thorough" else 150, tier)
+    base = os.environ.get("VERIF_SCRATCH") or tempfile.gettempdir()
+    maprx = re.compile(r"^\s+runtime\.map\w+\(|^\s+internal/runtime/maps\.")
+    for i in range(0, len(hs), 6):
+        chunk = hs[i:i + 6]
+        lines = []
+        for h in chunk:
+            lines.append("reset")
+            lines.extend(h.ops)
+        scratch = tempfile.mkdtemp(prefix="bxhverif-race-", dir=base)
+        try:
+            try:
+                p = subprocess.run([core.BXHDRIVE_RACE, "exec"], input="\n".join(lines) + "\n", capture_output=True, text=True, timeout=600,
+                                   env=dict(os.environ, VERIF_SCRATCH=scratch, GORACE="halt_on_error=0"))
+                err = p.stderr
+            except subprocess.TimeoutExpired as e:
+                err = (e.stderr or b"").decode(errors="replace") if isinstance(e.stderr, bytes) else (e.stderr or "")
+        finally:
+            shutil.rmtree(scratch, ignore_errors=True)
+        reports = [x for x in err.split("==================") if "WARNING: DATA RACE" in x]
+        tag_hist["race:histories-run"] = tag_hist.get("race:histories-run", 0) + len(chunk)
+        found = False
+        for rep in reports:
+            repo_frames = re.findall(r"^\s+(github\.com/meshplus/bitxhub/\S+)\(\)", rep, re.M)
+            where = (repo_frames[0].split("/")[-1] if repo_frames else "?").replace("(*", "").replace(")", "")
+            if any(maprx.match(l) for l in rep.splitlines()):
+                if not found:
+                    found = True
+                    hit = Hit(f"C08/concurrent-map-access/{where}",
+                              "the race detector reports an unsynchronised access to a Go map shared by goroutines of block execution "
+                              f"(first frame in the repository: {where}); at run time this is `fatal error: concurrent map read and map write`, "
+                              "which recover() cannot contain: the node dies while executing a block",
+                              hist=History(lines), detail=rep.strip()[:3000])
+                    hit.engine = "exec-race"
+                    yield hit
+            else:
+                k = "race:not-a-map:" + where
+                tag_hist[k] = tag_hist.get(k, 0) + 1
+        if not found:
+            for _ in chunk:
+                yield None
+
+
 register(PropSpec(
     "C08",
+    statics=[race_search],
     engines=[EngineSpec("exec", gen_dispatch.gen_c08, gen_dispatch.mon_c08, gen_dispatch.tags_c08, quick_n=300, thorough_n=8000,
                         mask=mon_exec.mask_unmodelled)],
     facts=["contractMethods", "goSites", "recoverGuards"],
